@@ -307,7 +307,104 @@ def _sig_edge_cases(tier):
                 yield {'signer': sp, 'kind': kind, 'start': start}
 
 
+# ---- genuine ECDSA signatures of unusual length ---------------------------------------------------------------------------------
+_P256_N = 0xFFFFFFFF00000000FFFFFFFFFFFFFFFFBCE6FAADA7179E84F3B9CAC2FC632551
+
+
+def _der_int(v):
+    b = v.to_bytes((v.bit_length() + 8) // 8 or 1, 'big')      # minimal, with a leading 0x00 when the top bit is set
+    return b'\x02' + bytes([len(b)]) + b
+
+
+class _ChosenEcdsa:
+    """A signer (the public Signer interface) producing a GENUINE SignatureSha256WithEcdsa whose s is a chosen small number: for the
+    nonce k and the wanted s it solves s = k^-1 (z + r d) for the private key d, so the signature verifies under Q = d G."""
+
+    def __init__(self, kl, k, s_val):
+        self.kl, self.k, self.s_val = kl, k, s_val
+        self.d = None
+
+    def write_signature_info(self, signature_info):
+        from ndn.encoding import KeyLocator
+        signature_info.signature_type = 3
+        signature_info.key_locator = KeyLocator()
+        signature_info.key_locator.name = self.kl
+
+    def get_signature_value_size(self):
+        return 72
+
+    def write_signature_value(self, wire, contents):
+        z = int.from_bytes(hashlib.sha256(b''.join(bytes(c) for c in contents)).digest(), 'big')
+        rr = int(ECC.construct(curve='P-256', d=self.k).pointQ.x) % _P256_N
+        self.d = (self.s_val * self.k - z) * pow(rr, -1, _P256_N) % _P256_N
+        body = _der_int(rr) + _der_int(self.s_val)
+        sig = b'\x30' + bytes([len(body)]) + body
+        wire[:len(sig)] = sig
+        return len(sig)
+
+
+def run_ecdsa_short(case):
+    from Cryptodome.Hash import SHA256
+    from Cryptodome.Signature import DSS
+    from ndn.encoding import InterestParam, MetaInfo, Signer, make_data, make_interest
+    Signer.register(_ChosenEcdsa)
+    r = Result()
+    kl = [T.enc_tlv(8, b'k')]
+    s_val = (case['s_seed'] % ((1 << case['s_bits']) - 1)) + 1
+    signer = _ChosenEcdsa(kl, case['k'], s_val)
+    name = [T.enc_tlv(8, b'short'), T.enc_tlv(8, b'%d' % case['s_bits'])]
+    try:
+        if case['kind'] == 'data':
+            wire = bytes(make_data(name, MetaInfo(), b'content', signer))
+        else:
+            wire = bytes(make_interest(name, InterestParam(nonce=5), b'param', signer))
+    except Exception as e:
+        return r.bad('C02/harness/ecdsa-short-signing-raised', repr(e)[:200])
+    if not signer.d:
+        r.discarded = True
+        return r
+    key = ECC.construct(curve='P-256', d=signer.d)
+    st_ = _strict(case['kind'], wire)
+    try:
+        DSS.new(key.public_key(), 'fips-186-3', 'der').verify(SHA256.new(st_['signed']), st_['sig_value'])
+    except ValueError:
+        return r.bad('C02/harness/ecdsa-short-signature-not-genuine', st_['sig_value'].hex())
+    pname, _p, _c, sig = _parse(case['kind'], wire)
+    pub = key.public_key().export_key(format='DER')
+    for label, fn in (('verify_ecdsa', lambda: verify_ecdsa(ECC.import_key(pub), sig)),
+                      ('EccChecker', lambda: run_sync(EccChecker.from_key(kl, pub)(pname, sig)))):
+        try:
+            v = bool(fn())
+        except Exception as e:
+            v = f'raised:{type(e).__name__}'
+        if v is not True:
+            r.bad(f'C02/original-rejected/{case["kind"]}/{label}/short-ecdsa-signature',
+                  f'{v}: genuine signature of {len(st_["sig_value"])} octets (s has {s_val.bit_length()} bits)')
+    # ... and it is still a signature over exactly these bytes
+    if not r.violations:
+        i = wire.rindex(b'content' if case['kind'] == 'data' else b'param')
+        mw = wire[:i] + bytes([wire[i] ^ 1]) + wire[i + 1:]
+        try:
+            mname, _mp, _mc, msig = _parse(case['kind'], mw)
+            if verify_ecdsa(ECC.import_key(pub), msig):
+                r.bad(f'C02/tamper-accepted/{case["kind"]}/verify_ecdsa/short-ecdsa-signature', '')
+        except Exception:
+            pass
+    r.key = (case['kind'], len(st_['sig_value']))
+    r.classes = (case['kind'], f'signature-octets:{len(st_["sig_value"])}')
+    return r
+
+
+def _ecdsa_short_cases(tier):
+    for kind in ('data', 'interest'):
+        for s_bits in (1, 8, 64, 128, 200, 224, 232, 240, 247, 248, 255):
+            for k in ((3, 0x1234567) if tier == 'quick' else (3, 0x1234567, 2 ** 200 + 9, _P256_N - 2)):
+                yield {'kind': kind, 's_bits': s_bits, 's_seed': 0x9e3779b97f4a7c15f39cc0605cedc834 * (k + s_bits), 'k': k}
+
+
 SUBCHECKS = {
+    'ecdsa-short': SubCheck(run_ecdsa_short, enumerate=_ecdsa_short_cases, exhaustive={'quick': False, 'thorough': False},
+                            note='genuine ECDSA signatures whose s has 1..255 bits (DER length 37..72): the matching verifier accepts'),
     'sig-edge': SubCheck(run_sig_edge, enumerate=_sig_edge_cases, exhaustive={'quick': False, 'thorough': False},
                          note='packets searched for a SignatureValue starting with 0x00 (RSA, HMAC, digest); that octet removed / '
                               'another one prepended must be rejected'),
